@@ -176,6 +176,16 @@ def step (d : DSt) (line : String) : DSt × String :=
       | none => true
     -- a NEW claim (the request's thread creates an affinity object of its host) is allowed only
     -- if `allowNewClaim (owned + claims so far) cap`
+    -- `numBlocksOwned` is what the request's getAffineBlocks (its `list aff` call) sees
+    let d := match words line, (parseStep (words line)) with
+      | "step" :: _ :: _ :: "list" :: "list" :: "aff" :: _, some cl =>
+        match d.req cl.t with
+        | some r =>
+          let owned := ((List.range d.cas.nb).filter (fun b =>
+            (d.cas.aff r.host b).isSome && r.allowed.contains (d.bpool.getD b 0))).length
+          { d with reqs := (cl.t, { r with owned := owned }) :: d.reqs, claimed := (cl.t, 0) :: d.claimed }
+        | none => d
+      | _, _ => d
     let (d', capOk) := match parseStep (words line) with
       | some cl =>
         match cl.key, cl.verb, d.req cl.t with
